@@ -24,6 +24,7 @@ __CPROVER_assigns(self->max_dif_, self->max_correction_, self->min_correction_);
 
 const int32_t *Wrap_ClampPredictedValue(const struct Wrap *self, const int32_t *predicted_val)
 __CPROVER_requires(__CPROVER_is_fresh(self, sizeof(struct Wrap)) && WRAP_VEC_OK(self) && __CPROVER_is_fresh(predicted_val, (size_t)self->num_components_ * 4))
+__CPROVER_requires(self->min_value_ <= self->max_value_)   /* representation invariant: established by the encoder (data min/max) and by DecodeTransformData (refuses min > max); without it the order of the two clamping tests would matter */
 __CPROVER_ensures(__CPROVER_return_value == self->clamped_value_.data)
 __CPROVER_ensures(ghost_k < 0 || ghost_k >= self->num_components_ || self->clamped_value_.data[ghost_k] == WRAP_CLAMP(self, predicted_val[ghost_k]))
 __CPROVER_assigns(__CPROVER_object_whole(self->clamped_value_.data));
